@@ -154,7 +154,7 @@ func vScenarioC10(rc *runCtx) {
 	// the stop may come after an earlier pause of this transfer (question opened, left open for a long while - the
 	// user asked never to time out - and answered "continue"): the server's stop is no slower for it
 	priorPause := !enumerated && (cfg.protocol == 0 || cfg.protocol >= 3) && tp.Bool("c10.priorpause", 300)
-	priorCycles, stallDuring := 1, false
+	priorCycles, stallDuring, priorEarly, priorAtChunk := 1, false, false, 0
 	var priorLen time.Duration
 	if priorPause {
 		cfg.timeout = 0
@@ -172,6 +172,17 @@ func vScenarioC10(rc *runCtx) {
 		// (only for downloads stopped by the client, and only the client is timed then: the sending server
 		// rightly counts a stalled link as a slow one and takes its time)
 		stallDuring = !cfg.upload && tp.Bool("c10.priorstall", 400)
+		if priorEarly = cfg.upload && tp.Bool("c10.priorearly", 300); priorEarly {
+			// the question opens while the sender is still finding its chunk size (doubling from 10 KiB as long as
+			// acknowledgements come back fast), several chunks on their way: a long first file that does not compress
+			big := make([]byte, 600000+tp.Draw("c10.priorbig", 900000))
+			rand.New(rand.NewSource(int64(tp.Draw("c10.priorseed", 1<<30)))).Read(big)
+			bp := filepath.Join(rc.dir, "src", "zz-long-first.bin")
+			vWriteFile(bp, big)
+			o.srcPaths = append([]string{bp}, o.srcPaths...)
+			o.profile.bytesPerMs, o.profile.latPm = 0, 0
+			priorAtChunk = 2 + tp.Draw("c10.prioratchunk", 5)
+		}
 	}
 	// the user may have asked never to time out: a stop still ends both sides (the peer is told, it does not wait)
 	if !priorPause && !enumerated && tp.Bool("c10.notimeout", 150) {
@@ -195,10 +206,44 @@ func vScenarioC10(rc *runCtx) {
 		think = 3*vMaxDur(T, 20*time.Second) + 15*time.Second + time.Duration(tp.Draw("c10.longextra", 60))*time.Second
 	}
 	stopArmed := armed
+	// how long the server heard nothing at all while an earlier question was open: a sender that is paused while it
+	// has nothing to send (waiting for an acknowledgement, between two files) writes no keep-alives either, and the
+	// server then cannot tell the pause from a slow link - by its own rule (twice the slowest recent chunk) it takes
+	// that long to stop, as after a stalled link
+	var upSilence, upLast time.Duration
+	upWatch := false
+	if priorPause {
+		prevUp := x.up[0].OnWrite
+		x.up[0].OnWrite = func(l *verifsim.Link, dd []byte) {
+			if prevUp != nil {
+				prevUp(l, dd)
+			}
+			if upWatch && w.Now()-upLast > upSilence {
+				upSilence = w.Now() - upLast
+			}
+			upLast = w.Now()
+		}
+	}
 	if priorPause {
 		continued := false
 		stopArmed = func() bool { return continued }
-		vOnChunk(rc, x, armed, pm, func() {
+		priorPm := pm
+		priorArmed := armed
+		if priorEarly {
+			priorPm = 1000
+			seen := 0
+			prevUp := x.up[0].OnWrite
+			x.up[0].OnWrite = func(l *verifsim.Link, dd []byte) {
+				if prevUp != nil {
+					prevUp(l, dd)
+				}
+				if bytes.HasPrefix(dd, []byte("#DATA:")) {
+					seen++
+				}
+			}
+			priorArmed = func() bool { return armed() && seen >= priorAtChunk }
+		}
+		vOnChunk(rc, x, priorArmed, priorPm, func() {
 			rc.fault("earlier-pause-continued")
 			x.paused = true
 			w.Go("user", x.client, func() {
@@ -215,7 +260,12 @@ func vScenarioC10(rc *runCtx) {
 						}
 					}
 					x.kbd.Write([]byte{0x03})
+					upWatch = true
 					verifsim.Sleep(priorLen)
+					if w.Now()-upLast > upSilence {
+						upSilence = w.Now() - upLast
+					}
+					upWatch = false
 					x.typeKeys("jj", 20*time.Millisecond)
 					x.typeKeys("\r", 20*time.Millisecond)
 					verifsim.Sleep(time.Duration(100+tp.Draw("c10.priorgap", 900)) * time.Millisecond)
@@ -284,7 +334,14 @@ func vScenarioC10(rc *runCtx) {
 			how, stopAt, rep.serverExited, clientBusy, w.Now(), vClip(rep.clientFail, 100), vClip(rep.serverFail, 100), vClip(w.ParkedSummary(), 400))
 		return
 	}
-	if (x.serverDoneAt > stopAt+bound && !stallDuring) || x.clientDoneAt > stopAt+bound {
+	serverUntimed := stallDuring || upSilence > 10*time.Second
+	rc.res.Scenario["stop_took"] = fmt.Sprintf("client %v server %v", (x.clientDoneAt - stopAt).Round(time.Second), (x.serverDoneAt - stopAt).Round(time.Second))
+	if upSilence > 10*time.Second {
+		rc.res.Scenario["server_heard_nothing_for"] = upSilence.String()
+	}
+	// (a stop that begins at the server reaches the client when the server has waited that out)
+	clientUntimed := upSilence > 10*time.Second && (how == "sigint" || how == "sigterm")
+	if (x.serverDoneAt > stopAt+bound && !serverUntimed) || (x.clientDoneAt > stopAt+bound && !clientUntimed) {
 		rc.violate("late", "C10:late:"+how, "stop (%s) at %v: server returned at %v, client at %v; bound 3*max(T,20s)+10s with T=%v", how, stopAt, x.serverDoneAt, x.clientDoneAt, T)
 		return
 	}
